@@ -259,11 +259,11 @@ fn main() {
             let lang = load_lang(&mut cu, &json, scanner.as_deref(), OptLevel::default()).expect("language of the spec");
             let terms = if kind == "zoo" { None } else { terminals(&lang) };
             let gid = format!("replay{i}");
-            let l = terms.as_ref().map(|t| exh_len(t.len(), 1500)).unwrap_or(0);
+            let (text, toks) = parse_string_spec(parts[1], terms.as_deref());
+            let l = terms.as_ref().map(|t| exh_len(t.len(), 1500)).unwrap_or(0).max(toks.as_ref().map(|t| t.len().min(8)).unwrap_or(0));
             em.grammar_header(&gid, &kind, parts[0], &lang, terms.as_deref(), optable.as_ref(), l);
             let mut parser = Parser::new();
             parser.set_language(&lang.built.language).unwrap();
-            let (text, toks) = parse_string_spec(parts[1], terms.as_deref());
             em.case(&format!("{gid}-r0"), &mut parser, &text, toks.as_deref());
         }
         let n = em.cases;
@@ -287,10 +287,11 @@ fn main() {
             if let Ok(lang) = load_lang(&mut cu, &json, scanner.as_deref(), OptLevel::default()) {
                 let terms = if kind == "zoo" { None } else { terminals(&lang) };
                 let gid = format!("corpus{i}");
-                em.grammar_header(&gid, &kind, parts[0], &lang, terms.as_deref(), optable.as_ref(), 2);
+                let (text, toks) = parse_string_spec(parts[1], terms.as_deref());
+                let l = toks.as_ref().map(|t| t.len()).unwrap_or(0).max(3);
+                em.grammar_header(&gid, &kind, parts[0], &lang, terms.as_deref(), optable.as_ref(), l);
                 let mut parser = Parser::new();
                 parser.set_language(&lang.built.language).unwrap();
-                let (text, toks) = parse_string_spec(parts[1], terms.as_deref());
                 em.case(&format!("{gid}-c0"), &mut parser, &text, toks.as_deref());
             }
         }
